@@ -68,11 +68,14 @@ class StreamWriter(AbstractStreamWriter):
         loop: asyncio.AbstractEventLoop,
         on_chunk_sent: _T_OnChunkSent = None,
         on_headers_sent: _T_OnHeadersSent = None,
+        on_head_written: Callable[[], None] | None = None,
     ) -> None:
         self._protocol = protocol
         self.loop = loop
         self._on_chunk_sent: _T_OnChunkSent = on_chunk_sent
         self._on_headers_sent: _T_OnHeadersSent = on_headers_sent
+        # Called when the buffered head is handed to the transport
+        self._on_head_written = on_head_written
         self._headers_buf: bytes | None = None
         self._headers_written: bool = False
 
@@ -137,6 +140,8 @@ class StreamWriter(AbstractStreamWriter):
         """Send buffered headers with payload, coalescing into single write."""
         # Mark headers as written
         self._headers_written = True
+        if self._on_head_written is not None:
+            self._on_head_written()
         headers_buf = self._headers_buf
         self._headers_buf = None
 
@@ -239,6 +244,8 @@ class StreamWriter(AbstractStreamWriter):
             return
 
         self._headers_written = True
+        if self._on_head_written is not None:
+            self._on_head_written()
         headers_buf = self._headers_buf
         self._headers_buf = None
 
@@ -257,6 +264,8 @@ class StreamWriter(AbstractStreamWriter):
         # This handles the case where there's no body at all
         if self._headers_buf and not self._headers_written:
             self._headers_written = True
+            if self._on_head_written is not None:
+                self._on_head_written()
             headers_buf = self._headers_buf
             self._headers_buf = None
 
@@ -303,6 +312,8 @@ class StreamWriter(AbstractStreamWriter):
             # Send buffered headers with compressed data if not yet sent
             if self._headers_buf and not self._headers_written:
                 self._headers_written = True
+                if self._on_head_written is not None:
+                    self._on_head_written()
                 headers_buf = self._headers_buf
                 self._headers_buf = None
 
